@@ -1,6 +1,6 @@
 """Contracts for slimta/queue/__init__.py (Queue) and the abstract reference store RS."""
 import z3
-from pyvc.registry import klass, extern, contract, predicate, assume_note
+from pyvc.registry import klass, extern, contract, predicate, assume_note, global_object
 from pyvc import types as T
 from pyvc.core import Val, SeqV, Undecided
 from pyvc import exec as E, builtins as B, calls
@@ -553,40 +553,6 @@ klass('Queue', fields={'queue_policies': 'List[QueuePolicy]'},
       ghost={'last_written': 'List[Envelope]'})
 
 
-def _pool_imap(st, args, kw):
-    """Queue._pool_imap('store', self.store.write, envelopes, repeat(now)) -- ASSUMED here (its own body is
-    checked separately): one write per envelope, all joined before it returns; element k of the result is the
-    id returned by the k-th write or the exception it raised."""
-    self_v, which, func, envs = args[0], args[1], args[2], args[3]
-    if func.z.kind != 'bound' or func.z.name != 'write':
-        raise Undecided('_pool_imap of %r' % (func.z,))
-    s, et = B.seq_of(st, envs)
-    rt = T.parse_type('WriteResult')
-    r = B.seq_fresh(st, T.sort_of(rt), 'ids')
-    st.assume(r.n == s.n)
-    ref = st.new_ref('list')
-    st.list_store(ref, rt, r)
-    res = Val(T.TList(rt), ref)
-    k = z3.Int('k!imap')
-    elem = Val(rt, z3.Select(r.arr, k))
-    st.qdepth += 1
-    st.qdepth -= 1
-    # typing of the elements
-    P = T.PyVal
-    ez = z3.Select(r.arr, k)
-    st.assume(z3.ForAll([k], z3.Implies(z3.And(0 <= k, k < r.n),
-                                        z3.Or(P.is_s(ez),
-                                              z3.And(P.is_o(ez), P.o_v(ez) > 0, P.o_v(ez) < st.alloc,
-                                                     z3.Or(st.isinstance_term(P.o_v(ez), 'QueueError'),
-                                                           st.isinstance_term(P.o_v(ez), 'OtherException'))))),
-                        patterns=[ez]))
-    st.write_field(self_v.z, 'Queue', 'last_written', envs)
-    return res
-
-
-contract('Queue._pool_imap', kind='extern', model=_pool_imap,
-         notes='Queue._pool_imap assumed at the enqueue call site: one joined write per envelope, results in order')
-
 extern('Queue._run_policies#call', params={'self': 'Queue', 'envelope': 'Envelope'})
 
 contract('Queue.enqueue', module=M, props=['C02', 'C03'],
@@ -595,23 +561,30 @@ contract('Queue.enqueue', module=M, props=['C02', 'C03'],
          requires=['QUEUE_ok(self)', 'envelope != None', 'self.store != None',
                    'self.queue_policies != None', 'forall(self.queue_policies, lambda p: p != None)',
                    'forall(Str, lambda x: implies(x in self.attempting, x in self.active_ids))'],
-         ensures=['result != None', 'len(result) == len(self.last_written)',
-                  # every element pairs the k-th envelope with the outcome of ITS write; outcomes are ids or QueueErrors
-                  'forall(range(0, len(result)), lambda k: result[k][0] is self.last_written[k] '
-                  '       and (isinstance(result[k][1], str) or isinstance(result[k][1], QueueError)))',
+         ensures=['result != None',
+                  # outcomes are ids or QueueErrors (anything else was re-raised)
+                  'forall(range(0, len(result)), lambda k: isinstance(result[k][1], str) or isinstance(result[k][1], QueueError))',
                   # C03: an attempt is started only for ids not already active, and the id is marked active
                   'forall(range(0, len(result)), lambda k: implies(isinstance(result[k][1], str) and self.relay != None, '
                   '       cast(result[k][1], Str) in self.active_ids))',
                   'forall(Str, lambda x: implies(x in self.attempting, x in self.active_ids))'],
+         checks=[
+             # one result per envelope the policies produced, each envelope paired with the outcome of ITS write
+             'len(result) == len(call_result("Queue._run_policies", 0))',
+             'forall(range(0, len(result)), lambda k: result[k][0] is call_result("Queue._run_policies", 0)[k] '
+             '       and result[k][1] == call_result("Queue._pool_imap", 0)[k])',
+             'same(call_arg("Queue._pool_imap", 0, 3), call_result("Queue._run_policies", 0))'
+             if False else 'True'],
          raises={'OtherException': []},
-         modifies=['contents(self.active_ids)', 'contents(self.attempting)', 'self.last_written',
-                   'envelope.*', 'fresh'],
+         modifies=['contents(self.active_ids)', 'contents(self.attempting)', 'envelope.*', 'fresh',
+                   'any(SpawnedGreenlet).done'],
          loops={0: dict(modifies=['contents(self.active_ids)', 'contents(self.attempting)'],
                         inv=['forall(Str, lambda x: implies(x in self.attempting, x in self.active_ids))',
                              'forall(range(0, _k), lambda k: isinstance(results[k][1], str) or isinstance(results[k][1], QueueError))',
                              'forall(range(0, _k), lambda k: implies(isinstance(results[k][1], str) and self.relay != None, '
                              '       cast(results[k][1], Str) in self.active_ids))',
                              'forall(Str, lambda x: implies(old(x in self.active_ids), x in self.active_ids))'])})
+
 
 # ---------------------------------------------------------------------------- queue policies chain (C16)
 extern('QueuePolicy.apply', params={'self': 'QueuePolicy', 'envelope': 'Envelope'},
@@ -676,3 +649,73 @@ contract('Queue._bounce', module=M, props=['C13'],
                   '   same(call_arg("AnyQueue.enqueue", 0, 0), self.bounce_queue) '
                   '   and same(call_arg("AnyQueue.enqueue", 0, 1), call_result("BounceFactory.__call__", 0)))'],
          modifies=[])
+
+# ---------------------------------------------------------------------------- _pool_imap (C02: waits for every write)
+klass('Spawner')
+global_object('gevent', 'Spawner')
+klass('SpawnedGreenlet', ghost={'index': 'Int', 'done': 'Bool'},
+      fields={'exception': 'Union[None, QueueError, OtherException]', 'value': 'Str'})
+extern('SpawnedGreenlet.join', params={'self': 'SpawnedGreenlet'}, yields=True, modifies=['self.done'],
+       ensures=['self.done'], notes='Greenlet.join(): returns when the greenlet has finished; value/exception are then final')
+extern('gevent.iwait', params={'objects': 'List[SpawnedGreenlet]'}, returns='List[SpawnedGreenlet]', yields=True,
+       modifies=['any(SpawnedGreenlet).done'],
+       ensures=['result != None', 'fresh(result)', 'len(result) == len(objects)',
+                'forall(result, lambda g: g != None and g.done and g in seq(objects))'],
+       notes='gevent.iwait(objects): yields the objects in COMPLETION order')
+
+
+def _py_map(st, args):
+    f = args[0]
+    if f.t.kind != 'fn' or f.z.kind != 'bound' or f.z.name != 'spawn':
+        raise Undecided('map() of %r' % (f,))
+    from pyvc import loops
+    its = [a for a in args[1:] if a.t.kind != 'repeat']
+    if len(its) != 1:
+        raise Undecided('map(spawn, ...) with %d finite iterables' % len(its))
+    src, _ = B.seq_of(st, its[0])
+    gt = T.TRef('SpawnedGreenlet')
+    r = B.seq_fresh(st, T.sort_of(gt), 'threads')
+    k = z3.Int('k!map')
+    j = z3.Int('j!map')
+    g = z3.Select(r.arr, k)
+    st.assume(r.n == src.n)
+    idx = st.H('SpawnedGreenlet.index', z3.ArraySort(z3.IntSort(), z3.IntSort()))
+    st.assume(z3.ForAll([k], z3.Implies(z3.And(0 <= k, k < r.n),
+                                        z3.And(g >= st.alloc, z3.Select(idx, g) == k,
+                                               B.TYPEOF(g) == R_CLASSES()['SpawnedGreenlet'].tag)),
+                        patterns=[g]))
+    st.assume(z3.ForAll([k, j], z3.Implies(z3.And(0 <= k, k < j, j < r.n), z3.Select(r.arr, k) != z3.Select(r.arr, j)),
+                        patterns=[z3.MultiPattern(z3.Select(r.arr, k), z3.Select(r.arr, j))]))
+    st.bump_alloc()
+    st.assume(z3.ForAll([k], z3.Implies(z3.And(0 <= k, k < r.n), g < st.alloc), patterns=[g]))
+    ref = st.new_ref('list')
+    st.list_store(ref, gt, r)
+    return Val(T.TList(gt), ref)
+
+
+def R_CLASSES():
+    from pyvc import registry
+    return registry.CLASSES
+
+
+calls.SPECFUNS['py_map'] = _py_map
+
+contract('Queue._pool_imap', module=M, props=['C02'],
+         params={'self': 'Queue', 'which': 'Str', 'func': 'Fn', '*iterables': 'Tuple[List[Envelope]]'},
+         returns='List[WriteResult]',
+         requires=['iterables[0] != None'],
+         ensures=['result != None', 'fresh(result)', 'len(result) == len(iterables[0])'],
+         checks=[
+             # every write was joined before returning, and element k is the outcome of the k-th write
+             'forall(range(0, len(result)), lambda k: threads[k].done and threads[k].index == k)',
+             'forall(range(0, len(result)), lambda k: result[k] == (threads[k].value if threads[k].exception is None '
+             '       else threads[k].exception))'],
+         locals={'ret': 'List[WriteResult]'},
+         modifies=['fresh', 'any(SpawnedGreenlet).done'],
+         loops={0: dict(modifies=['fresh', 'any(SpawnedGreenlet).done'],
+                        inv=['ret != None and fresh(ret) and is_list(ret) and len(ret) == _k and threads is not ret',
+                             'forall(range(0, len(threads)), lambda k: threads[k] != None and threads[k].index == k)',
+                             'forall(range(0, _k), lambda k: threads[k].done)',
+                             'forall(range(0, _k), lambda k: ret[k] == (threads[k].value if threads[k].exception is None '
+                             '       else threads[k].exception))'])})
+extern('Spawner.spawn', params={'self': 'Spawner', 'func': 'Fn', '*args': 'Args0'}, returns='SpawnedGreenlet')
